@@ -500,25 +500,25 @@ structure ErasureList (E : List Nat) : Prop where
 end XorTable
 
 /-- overwrite every erased buffer with `zero`. -/
-def eraseBufs {V : Type} (zero : V) (T : XorTable) (E : List Nat) (x : XState V) : XState V :=
+def xorEraseBufs {V : Type} (zero : V) (T : XorTable) (E : List Nat) (x : XState V) : XState V :=
   E.foldl (fun x e => x.set (T.bufOf e) zero) x
 
 theorem eraseBufs_map {V W : Type} (h : V → W) (zero : V) (T : XorTable) (E : List Nat)
-    (x : XState V) : (eraseBufs zero T E x).map h = eraseBufs (h zero) T E (x.map h) := by
+    (x : XState V) : (xorEraseBufs zero T E x).map h = xorEraseBufs (h zero) T E (x.map h) := by
   induction E generalizing x with
   | nil => rfl
   | cons e E ih =>
-    simp only [eraseBufs, List.foldl_cons] at ih ⊢
+    simp only [xorEraseBufs, List.foldl_cons] at ih ⊢
     rw [ih, XState.set_map]
 
-/-- pointwise description of `eraseBufs` on the data buffers (reading with default `zero`). -/
+/-- pointwise description of `xorEraseBufs` on the data buffers (reading with default `zero`). -/
 theorem eraseBufs_data_getD {V : Type} (zero : V) (T : XorTable) (E : List Nat) (x : XState V)
-    (i : Nat) : (eraseBufs zero T E x).data.getD i zero =
+    (i : Nat) : (xorEraseBufs zero T E x).data.getD i zero =
       if i ∈ E ∧ i < T.k then zero else x.data.getD i zero := by
   induction E generalizing x with
-  | nil => simp [eraseBufs]
+  | nil => simp [xorEraseBufs]
   | cons e E ih =>
-    simp only [eraseBufs, List.foldl_cons] at ih ⊢
+    simp only [xorEraseBufs, List.foldl_cons] at ih ⊢
     rw [ih]
     unfold XorTable.bufOf
     by_cases he : e < T.k
@@ -535,14 +535,14 @@ theorem eraseBufs_data_getD {V : Type} (zero : V) (T : XorTable) (E : List Nat) 
       · subst hei; simp [he]
       · simp [hei]
 
-/-- pointwise description of `eraseBufs` on the parity buffers. -/
+/-- pointwise description of `xorEraseBufs` on the parity buffers. -/
 theorem eraseBufs_parity_getD {V : Type} (zero : V) (T : XorTable) (E : List Nat) (x : XState V)
-    (j : Nat) : (eraseBufs zero T E x).parity.getD j zero =
+    (j : Nat) : (xorEraseBufs zero T E x).parity.getD j zero =
       if T.k + j ∈ E then zero else x.parity.getD j zero := by
   induction E generalizing x with
-  | nil => simp [eraseBufs]
+  | nil => simp [xorEraseBufs]
   | cons e E ih =>
-    simp only [eraseBufs, List.foldl_cons] at ih ⊢
+    simp only [xorEraseBufs, List.foldl_cons] at ih ⊢
     rw [ih]
     unfold XorTable.bufOf
     by_cases he : e < T.k
@@ -559,12 +559,12 @@ theorem eraseBufs_parity_getD {V : Type} (zero : V) (T : XorTable) (E : List Nat
         simp [hej, this]
 
 theorem eraseBufs_lengths {V : Type} (zero : V) (T : XorTable) (E : List Nat) (x : XState V) :
-    (eraseBufs zero T E x).data.length = x.data.length ∧
-    (eraseBufs zero T E x).parity.length = x.parity.length := by
+    (xorEraseBufs zero T E x).data.length = x.data.length ∧
+    (xorEraseBufs zero T E x).parity.length = x.parity.length := by
   induction E generalizing x with
   | nil => exact ⟨rfl, rfl⟩
   | cons e E ih =>
-    simp only [eraseBufs, List.foldl_cons] at ih ⊢
+    simp only [xorEraseBufs, List.foldl_cons] at ih ⊢
     obtain ⟨h1, h2⟩ := ih (x.set (T.bufOf e) zero)
     rw [h1, h2]
     unfold XorTable.bufOf
@@ -581,10 +581,10 @@ theorem list_eq_range_map {α : Type} (l : List α) (d : α) (n : Nat) (hn : l.l
 /-- the symbolic start state of decode/reconstruct, spelled out: data i = `1 <<< i` unless
     `i ∈ E` (then 0); parity j = `pbm j` unless `k + j ∈ E` (then 0). -/
 theorem eraseBufs_symGoal (T : XorTable) (E : List Nat) :
-    (eraseBufs 0 T E T.symGoal).data = (List.range T.k).map (fun i => if i ∈ E then 0 else 1 <<< i) ∧
-    (eraseBufs 0 T E T.symGoal).parity
+    (xorEraseBufs 0 T E T.symGoal).data = (List.range T.k).map (fun i => if i ∈ E then 0 else 1 <<< i) ∧
+    (xorEraseBufs 0 T E T.symGoal).parity
       = (List.range T.m).map (fun j => if T.k + j ∈ E then 0 else T.pbm j) ∧
-    (eraseBufs 0 T E T.symGoal).tmp = 0 := by
+    (xorEraseBufs 0 T E T.symGoal).tmp = 0 := by
   obtain ⟨l1, l2⟩ := eraseBufs_lengths 0 T E T.symGoal
   refine ⟨?_, ?_, ?_⟩
   · apply list_eq_range_map _ 0 _ (by rw [l1]; simp [XorTable.symGoal])
@@ -595,13 +595,13 @@ theorem eraseBufs_symGoal (T : XorTable) (E : List Nat) :
     intro j hj
     rw [eraseBufs_parity_getD]
     simp [XorTable.symGoal, hj]
-  · have : ∀ (E : List Nat) (x : XState Nat), (eraseBufs 0 T E x).tmp = x.tmp := by
+  · have : ∀ (E : List Nat) (x : XState Nat), (xorEraseBufs 0 T E x).tmp = x.tmp := by
       intro E
       induction E with
       | nil => intro x; rfl
       | cons e E ih =>
         intro x
-        simp only [eraseBufs, List.foldl_cons] at ih ⊢
+        simp only [xorEraseBufs, List.foldl_cons] at ih ⊢
         rw [ih]; unfold XorTable.bufOf; split <;> rfl
     rw [this]; rfl
 
@@ -612,36 +612,36 @@ variable (T : XorTable)
     run on the stripe with the erased buffers zeroed restores every data and parity mask. -/
 def DecodeSym : Prop :=
   ∀ E, T.ErasureList E → ∃ ops, T.planDecode E = .ok ops ∧
-    (runOps (· ^^^ ·) 0 ops (eraseBufs 0 T E T.symGoal)).data = T.symGoal.data ∧
-    (runOps (· ^^^ ·) 0 ops (eraseBufs 0 T E T.symGoal)).parity = T.symGoal.parity
+    (runOps (· ^^^ ·) 0 ops (xorEraseBufs 0 T E T.symGoal)).data = T.symGoal.data ∧
+    (runOps (· ^^^ ·) 0 ops (xorEraseBufs 0 T E T.symGoal)).parity = T.symGoal.parity
 
 /-- symbolic reconstruct statement: for every erasure list and every destination in it, the
     reconstruct plan exists and its symbolic run restores the destination mask. -/
 def ReconSym : Prop :=
   ∀ E, T.ErasureList E → ∀ dest, dest ∈ E → ∃ ops, T.planReconOne E dest = .ok ops ∧
-    (runOps (· ^^^ ·) 0 ops (eraseBufs 0 T E T.symGoal)).get 0 (T.bufOf dest)
+    (runOps (· ^^^ ·) 0 ops (xorEraseBufs 0 T E T.symGoal)).get 0 (T.bufOf dest)
       = T.symGoal.get 0 (T.bufOf dest)
 
 /-- byte-level decode statement, for every payload length and content. -/
 def DecodeBytes : Prop :=
   ∀ (bs : Nat) (d : List Bytes), d.length = T.k → (∀ x ∈ d, x.length = bs) →
   ∀ E, T.ErasureList E → ∃ ops, T.planDecode E = .ok ops ∧
-    (runOps xorBytes (zeros bs) ops (eraseBufs (zeros bs) T E (T.stripe bs d))).data = d ∧
-    (runOps xorBytes (zeros bs) ops (eraseBufs (zeros bs) T E (T.stripe bs d))).parity
+    (runOps xorBytes (zeros bs) ops (xorEraseBufs (zeros bs) T E (T.stripe bs d))).data = d ∧
+    (runOps xorBytes (zeros bs) ops (xorEraseBufs (zeros bs) T E (T.stripe bs d))).parity
       = (T.stripe bs d).parity
 
 /-- byte-level reconstruct statement, for every payload length and content. -/
 def ReconBytes : Prop :=
   ∀ (bs : Nat) (d : List Bytes), d.length = T.k → (∀ x ∈ d, x.length = bs) →
   ∀ E, T.ErasureList E → ∀ dest, dest ∈ E → ∃ ops, T.planReconOne E dest = .ok ops ∧
-    (runOps xorBytes (zeros bs) ops (eraseBufs (zeros bs) T E (T.stripe bs d))).get (zeros bs)
+    (runOps xorBytes (zeros bs) ops (xorEraseBufs (zeros bs) T E (T.stripe bs d))).get (zeros bs)
       (T.bufOf dest) = (T.stripe bs d).get (zeros bs) (T.bufOf dest)
 
 theorem decodeBytes_of_sym (h : T.DecodeSym) : T.DecodeBytes := by
   intro bs d hk hd E hE
   obtain ⟨ops, hp, h1, h2⟩ := h E hE
   refine ⟨ops, hp, ?_⟩
-  have hl := lift_run hd ops (eraseBufs 0 T E T.symGoal) _ rfl
+  have hl := lift_run hd ops (xorEraseBufs 0 T E T.symGoal) _ rfl
   rw [eraseBufs_map, interp_zero, T.symGoal_map hk hd] at hl
   rw [← hl]
   have hs := T.symGoal_map hk hd
@@ -654,7 +654,7 @@ theorem reconBytes_of_sym (h : T.ReconSym) : T.ReconBytes := by
   intro bs d hk hd E hE dest hdest
   obtain ⟨ops, hp, h1⟩ := h E hE dest hdest
   refine ⟨ops, hp, ?_⟩
-  have hl := lift_run hd ops (eraseBufs 0 T E T.symGoal) _ rfl
+  have hl := lift_run hd ops (xorEraseBufs 0 T E T.symGoal) _ rfl
   rw [eraseBufs_map, interp_zero, T.symGoal_map hk hd] at hl
   rw [← hl, ← T.symGoal_map hk hd, ← interp_zero (bs := bs) (d := d), XState.get_map,
     XState.get_map, h1]
